@@ -195,21 +195,25 @@ class Fn:
     # ---- feasibility: values with several definitions tested by a later switch ------------------
     @property
     def merges(self):
-        """Infeasible-path pruning table.  For a local X with several whole definitions (a
-        `let r = match .. {..}` merge, the return place of an inlined helper) and a later switch
-        whose discriminant is a pure function of X (`match r`, `r?`, `if r.is_err()`), the arm taken
-        is determined by which definition of X executed last.  Returns a list of
-        (X, {def_block: def_index}, {switch_block: {def_index: target}}); reachability tracks the
-        last definition per X and follows only the matching arm.  A switch is entered in the table
-        only if no definition of X can execute between the point where X is read and the switch."""
+        """Infeasible-path pruning table.  For locals with several whole definitions (a
+        `let r = match .. {..}` merge, the return place of an inlined helper, the result of an expanded
+        combinator) and a later switch whose discriminant is a pure function of them (`match r`, `r?`,
+        `if r.is_err()`), the arm taken is determined by which definitions executed last.  Returns
+        (locals, switches): locals = [(X, {def_block: def_index})], switches = {switch_block:
+        (indices into locals, {tuple of def indices: target})}; reachability tracks the last definition
+        per X and follows only the matching arm.  A switch is entered in the table only if no definition
+        of an involved local can execute between the point where it is read and the switch."""
         if getattr(self, "_merges", None) is not None:
             return self._merges
-        self._merges = []
+        self._merges = ([], {})
         try:
             from .expr import expr_of_operand, evaluate, switch_target, UNK
         except ImportError:
             return self._merges
-        table = {}
+        import itertools
+        locs = []
+        index = {}
+        switches = {}
         for sb in range(self.n):
             t = self.blocks[sb]["t"]
             if t["k"] != "switch":
@@ -217,33 +221,73 @@ class Fn:
             e = expr_of_operand(self, t["x"])
             phi = {"seen": {}, "choice": {}}
             evaluate(e, {"__phi__": phi})
-            keys = [k for k in phi["seen"] if k[0] == self.key]
-            if len(phi["seen"]) != 1 or len(keys) != 1:
-                continue
-            x = keys[0][1]
-            ds = def_sites(self, x)
-            arms = {}
-            for i in range(len(ds)):
-                phi2 = {"seen": {}, "choice": {keys[0]: i}}
-                v = evaluate(e, {"__phi__": phi2})
-                if len(phi2["seen"]) != 1:
-                    arms = None
+            # choosing a definition may expose further multi-definition locals: iterate to a fixpoint
+            keys = []
+            for _ in range(3):
+                keys = sorted(k for k in phi["seen"] if k[0] == self.key)
+                if len(keys) != len(phi["seen"]) or not keys or len(keys) > 3:
+                    keys = []
                     break
+                before = dict(phi["seen"])
+                for combo in itertools.product(*[range(phi["seen"][k]) for k in keys]):
+                    phi["choice"] = dict(zip(keys, combo))
+                    evaluate(e, {"__phi__": phi})
+                if phi["seen"] == before:
+                    break
+            if not keys:
+                continue
+            n_comb = 1
+            for k in keys:
+                n_comb *= phi["seen"][k]
+            if n_comb > 36:
+                continue
+            arms = {}
+            for combo in itertools.product(*[range(phi["seen"][k]) for k in keys]):
+                phi2 = {"seen": {}, "choice": dict(zip(keys, combo))}
+                v = evaluate(e, {"__phi__": phi2})
                 tgt = switch_target(t, v) if v is not UNK else None
                 if tgt is not None:
-                    arms[i] = tgt
+                    arms[combo] = tgt
             if not arms:
                 continue
-            # X must not be redefined between the read of X and the switch
-            rb = self._read_block(t["x"], x)
-            if rb is None:
+            # drop the locals the outcome does not depend on (e.g. a payload evaluated on the way)
+            keep_ix = []
+            for i in range(len(keys)):
+                groups = {}
+                for combo, tgt in arms.items():
+                    groups.setdefault(combo[:i] + combo[i + 1:], set()).add(tgt)
+                full = all(len([c for c in arms if c[:i] + c[i + 1:] == rest]) == phi["seen"][keys[i]] for rest in groups)
+                if not (full and all(len(ts) == 1 for ts in groups.values())):
+                    keep_ix.append(i)
+            if not keep_ix:
                 continue
-            defblocks = {d[0] for d in ds}
-            between = self._plain_reach_after(rb, cut={rb}) if rb != sb else set()
-            if any(d in between and sb in self._plain_reach(d, cut={rb}) for d in defblocks):
+            if len(keep_ix) < len(keys):
+                arms = {tuple(c[i] for i in keep_ix): tgt for c, tgt in arms.items()}
+                keys = [keys[i] for i in keep_ix]
+            ok = True
+            for k in keys:
+                x = k[1]
+                ds = def_sites(self, x)
+                rb = self._read_block(t["x"], x)
+                if rb is None:
+                    ok = False
+                    break
+                defblocks = {d[0] for d in ds}
+                between = self._plain_reach_after(rb, cut={rb}) if rb != sb else set()
+                if any(d in between and sb in self._plain_reach(d, cut={rb}) for d in defblocks):
+                    ok = False
+                    break
+            if not ok:
                 continue
-            table.setdefault(x, ({d[0]: i for i, d in enumerate(ds)}, {}))[1][sb] = arms
-        self._merges = [(x, dm, sw) for x, (dm, sw) in sorted(table.items())]
+            idxs = []
+            for k in keys:
+                x = k[1]
+                if x not in index:
+                    index[x] = len(locs)
+                    locs.append((x, {d[0]: i for i, d in enumerate(def_sites(self, x))}))
+                idxs.append(index[x])
+            switches[sb] = (tuple(idxs), arms)
+        self._merges = (locs, switches)
         return self._merges
 
     def _read_block(self, operand, x, depth=0):
@@ -254,26 +298,33 @@ class Fn:
         if l == x:
             return None if depth == 0 else -1
         ds = def_sites(self, l)
-        if len(ds) != 1:
+        if not ds or len(ds) > 4:
             return None
-        b, kind, payload = ds[0]
-        ops = []
-        if kind == "call":
-            ops = list(payload.args)
-        else:
-            rv = payload["rv"]
-            if rv["k"] in ("ref", "rawptr", "discr"):
-                ops = [dict(rv["place"], k="copy")]
+        found = []
+        for b, kind, payload in ds:
+            ops = []
+            if kind == "call":
+                ops = list(payload.args)
             else:
-                ops = rvalue_operands(rv)
-        for o in ops:
-            if o.get("k") in ("copy", "move") and o["l"] == x:
-                return b
-        for o in ops:
-            r = self._read_block(o, x, depth + 1)
-            if r is not None and r != -1:
-                return r
-        return None
+                rv = payload["rv"]
+                if rv["k"] in ("ref", "rawptr", "discr"):
+                    ops = [dict(rv["place"], k="copy")]
+                else:
+                    ops = rvalue_operands(rv)
+            hit = None
+            for o in ops:
+                if o.get("k") in ("copy", "move") and o["l"] == x:
+                    hit = b
+            if hit is None:
+                for o in ops:
+                    r = self._read_block(o, x, depth + 1)
+                    if r is not None and r != -1:
+                        hit = r
+                        break
+            if hit is not None:
+                found.append(hit)
+        # x must be read at one place only on the way to the operand
+        return found[0] if len(set(found)) == 1 else None
 
     def _plain_reach(self, start, cut=()):
         seen = {start}
@@ -295,17 +346,19 @@ class Fn:
 
     def _step(self, b, st):
         """(state after leaving b, feasible successors of b in that state)"""
-        ms = self.merges
-        if not ms:
+        locs, switches = self.merges
+        if not locs:
             return st, self.succ[b]
         st2 = st
-        for i, (x, dm, sw) in enumerate(ms):
+        for i, (x, dm) in enumerate(locs):
             if b in dm:
                 st2 = st2[:i] + (dm[b],) + st2[i + 1:]
         succ = self.succ[b]
-        for i, (x, dm, sw) in enumerate(ms):
-            if b in sw and st2[i] is not None and st2[i] in sw[b]:
-                succ = [s_ for s_ in succ if s_ == sw[b][st2[i]]]
+        if b in switches:
+            idxs, arms = switches[b]
+            combo = tuple(st2[i] for i in idxs)
+            if None not in combo and combo in arms:
+                succ = [s_ for s_ in succ if s_ == arms[combo]]
         return st2, succ
 
     def reachable(self, start=0, cut_blocks=(), cut_edges=(), _state=None):
@@ -315,7 +368,7 @@ class Fn:
         cut_edges = set(cut_edges)
         if start in cut_blocks:
             return set()
-        ms = self.merges
+        ms = self.merges[0]
         if not ms:
             seen = {start}
             q = deque([start])
@@ -344,17 +397,17 @@ class Fn:
         """Blocks reachable from the *end* of block b (b itself only if on a cycle)."""
         out = set()
         cut_edges = set(cut_edges)
-        st2, succ = self._step(b, (None,) * len(self.merges))
+        st2, succ = self._step(b, (None,) * len(self.merges[0]))
         for s in succ:
             if (b, s) in cut_edges:
                 continue
-            out |= self.reachable(s, cut_blocks, cut_edges, _state=st2 if self.merges else None)
+            out |= self.reachable(s, cut_blocks, cut_edges, _state=st2 if self.merges[0] else None)
         return out
 
     def path_between(self, src, dst, cut_blocks=(), cut_edges=()):
         cut_blocks = set(cut_blocks)
         cut_edges = set(cut_edges)
-        st0 = (None,) * len(self.merges)
+        st0 = (None,) * len(self.merges[0])
         prev = {(src, st0): None}
         q = deque([(src, st0)])
         end = None
@@ -383,7 +436,7 @@ class Fn:
         """dom[b] = set of blocks dominating b (normal, feasible edges only)."""
         if self._dom is None:
             reach = self.reachable(0)
-            if self.merges:
+            if self.merges[0]:
                 # with infeasible-path pruning: d dominates b iff b is unreachable once d is removed
                 dom = {b: {b, 0} for b in reach}
                 for d in reach:
